@@ -30,6 +30,12 @@ Expected(cs) ==
              w2 == IF cs.conds[2] # 0 THEN cs.ws[3] ELSE cs.ws[4]
              y1 == MatMul(cs.x, M, K, w1, N)
          IN << Out(M, N, MatMul(y1, M, N, w2, N)) >>
+    [] cs.kind = "mmint" ->
+         \* MatMulInteger: (x - a_zero_point) x (w - b_zero_point[column]); one zero point = all columns
+         LET xs == [p \in 1..(M * K) |-> cs.x[p] - cs.azp]
+             zp(j) == IF Len(cs.bzp) = 1 THEN cs.bzp[1] ELSE cs.bzp[j]
+             wsft == [p \in 1..(K * N) |-> cs.ws[1][p] - zp(((p - 1) % N) + 1)]
+         IN << Out(M, N, MatMul(xs, M, K, wsft, N)) >>
     [] cs.kind = "shared" ->
          LET y == MatMul(cs.x, M, K, cs.ws[1], N)
              z == MatMul(cs.x2, M, N, Transpose(cs.ws[1], K, N), K)
